@@ -81,7 +81,17 @@ type Op struct {
 	FailBW int    `json:"fail_bw,omitempty"`
 	FailFW int    `json:"fail_fw,omitempty"`
 	FailRB bool   `json:"fail_rb,omitempty"`
-	Tag    string `json:"tag,omitempty"` // generator's label, informational
+	// Cancel: the context handed to Import reports cancellation from its
+	// Cancel-th poll on (1 = cancelled on entry), 0 = never. CancelSel is
+	// the generator's draw: when Cancel is 0 and CancelSel is not, the
+	// runner first runs the same import on a copy of the stores under a
+	// live, counting context (Polls = number of polls it made) and sets
+	// Cancel = 1 + (CancelSel-1) mod (Polls+1), i.e. any poll of this
+	// import or "later than the last poll". Replays use Cancel as recorded.
+	Cancel    int    `json:"cancel,omitempty"`
+	CancelSel int    `json:"cancel_sel,omitempty"`
+	Polls     int    `json:"polls,omitempty"` // informational
+	Tag       string `json:"tag,omitempty"`   // generator's label, informational
 	Obs    *Obs   `json:"obs,omitempty"`
 }
 
@@ -417,14 +427,58 @@ func (r *runner) observe(ok bool, errs string) *Obs {
 	return o
 }
 
-func (r *runner) doImport(op *Op) (ok bool, errs string) {
+// pollCtx is a context whose cancellation is scheduled by poll count: every
+// call of Done or Err is one poll; from the cancelAt-th poll on (0 = never)
+// Done's channel is closed and Err reports context.Canceled. It never goes
+// back to live. Deterministic: no timers, no goroutines.
+type pollCtx struct {
+	mu       sync.Mutex
+	polls    int
+	cancelAt int
+	closed   bool
+	done     chan struct{}
+}
+
+func newPollCtx(cancelAt int) *pollCtx {
+	return &pollCtx{cancelAt: cancelAt, done: make(chan struct{})}
+}
+
+func (x *pollCtx) poll() bool {
+	x.mu.Lock()
+	defer x.mu.Unlock()
+	if !x.closed {
+		// polls after the cancellation are not counted: ctxCancelled
+		// calls Err only then, and nothing depends on them any more
+		x.polls++
+		if x.cancelAt > 0 && x.polls >= x.cancelAt {
+			x.closed = true
+			close(x.done)
+		}
+	}
+	return x.closed
+}
+
+func (x *pollCtx) Deadline() (time.Time, bool) { return time.Time{}, false }
+func (x *pollCtx) Value(any) any               { return nil }
+func (x *pollCtx) Done() <-chan struct{} {
+	x.poll()
+	return x.done
+}
+func (x *pollCtx) Err() error {
+	if x.poll() {
+		return context.Canceled
+	}
+	return nil
+}
+
+var _ context.Context = (*pollCtx)(nil)
+
+func (r *runner) writeFiles(op *Op) (bpath, fpath string) {
 	r.nfiles++
-	bpath := filepath.Join(r.dir, fmt.Sprintf("blocks-%d.bin", r.nfiles))
-	fpath := filepath.Join(r.dir, fmt.Sprintf("filters-%d.bin", r.nfiles))
+	bpath = filepath.Join(r.dir, fmt.Sprintf("blocks-%d.bin", r.nfiles))
+	fpath = filepath.Join(r.dir, fmt.Sprintf("filters-%d.bin", r.nfiles))
 	var braw, fraw []byte
 	for _, i := range op.BFile {
-		var sb strings.Builder
-		_ = sb
 		w := &byteWriter{}
 		if err := r.p.b[i].hdr.Serialize(w); err != nil {
 			panic(err)
@@ -438,10 +492,16 @@ func (r *runner) doImport(op *Op) (ok bool, errs string) {
 	}
 	writeImportFile(bpath, op.BMeta, braw)
 	writeImportFile(fpath, op.FMeta, fraw)
+	return
+}
+
+func runImport(params chaincfg.Params, bs headerfs.BlockHeaderStore, fs headerfs.FilterHeaderStore,
+	bpath, fpath string, op *Op, ctx context.Context) (ok bool, errs string) {
+
 	opts := &chainimport.ImportOptions{
-		TargetChainParams:       r.p.params,
-		TargetBlockHeaderStore:  &faultB{BlockHeaderStore: r.bs, failAt: op.FailBW, failRB: op.FailRB},
-		TargetFilterHeaderStore: &faultF{FilterHeaderStore: r.fs, failAt: op.FailFW},
+		TargetChainParams:       params,
+		TargetBlockHeaderStore:  &faultB{BlockHeaderStore: bs, failAt: op.FailBW, failRB: op.FailRB},
+		TargetFilterHeaderStore: &faultF{FilterHeaderStore: fs, failAt: op.FailFW},
 		BlockHeadersSource:      bpath,
 		FilterHeadersSource:     fpath,
 		WriteBatchSizePerRegion: op.Batch,
@@ -450,11 +510,52 @@ func (r *runner) doImport(op *Op) (ok bool, errs string) {
 	if err != nil {
 		return false, "new: " + err.Error()
 	}
-	_, err = imp.Import(context.Background())
+	_, err = imp.Import(ctx)
 	if err != nil {
 		return false, err.Error()
 	}
 	return true, ""
+}
+
+// probePolls runs the import of op on a COPY of the stores under a live,
+// counting context and returns the number of context polls it made.
+func (r *runner) probePolls(op *Op, bpath, fpath string) int {
+	pdir := filepath.Join(r.dir, "probe")
+	os.RemoveAll(pdir)
+	if err := os.MkdirAll(pdir, 0o755); err != nil {
+		panic(err)
+	}
+	defer os.RemoveAll(pdir)
+	for _, f := range tmplFiles {
+		copyFile(filepath.Join(r.dir, f), filepath.Join(pdir, f))
+	}
+	db, err := walletdb.Open("bdb", filepath.Join(pdir, "h.db"), true, 10*time.Second, false)
+	if err != nil {
+		panic(err)
+	}
+	defer db.Close()
+	bs, err := headerfs.NewBlockHeaderStore(pdir, db, &r.p.params)
+	if err != nil {
+		// stores a set-up rollback left unreadable for the constructor:
+		// nothing to probe
+		return 0
+	}
+	fs, err := headerfs.NewFilterHeaderStore(pdir, db, headerfs.RegularFilter, &r.p.params, nil)
+	if err != nil {
+		return 0
+	}
+	ctx := newPollCtx(0)
+	runImport(r.p.params, bs, fs, bpath, fpath, op, ctx)
+	return ctx.polls
+}
+
+func (r *runner) doImport(op *Op) (ok bool, errs string) {
+	bpath, fpath := r.writeFiles(op)
+	if op.Cancel == 0 && op.CancelSel > 0 {
+		op.Polls = r.probePolls(op, bpath, fpath)
+		op.Cancel = 1 + (op.CancelSel-1)%(op.Polls+1)
+	}
+	return runImport(r.p.params, r.bs, r.fs, bpath, fpath, op, newPollCtx(op.Cancel))
 }
 
 type byteWriter struct{ b []byte }
@@ -703,6 +804,9 @@ func genHistory(seed int64, id int) History {
 		if r.Intn(4) == 0 && B+1 >= lo && B+1 <= E {
 			cpos = B + 1 // first new header
 		}
+		if r.Intn(6) == 0 {
+			cpos = E // last header of the file
+		}
 		n := Node{Parent: main[cpos-1], DT: g.dt(variant)}
 		tag := ""
 		switch r.Intn(7) {
@@ -813,15 +917,43 @@ func genHistory(seed int64, id int) History {
 	h.InitF = seqTok(0, F)
 	h.InitF[0] = 0
 	h.Ops = append(h.Ops, pre...)
+	// the context is cancelled at some poll of this import (valid files,
+	// corrupted files, faults, stores at different heights alike): the
+	// poll is drawn over the whole range of polls the import makes, plus
+	// "after the last one"; a quarter of them: cancelled on entry
+	drawCancel := func(o *Op) {
+		o.CancelSel = 1 + r.Intn(1<<20)
+		if r.Intn(4) == 0 {
+			o.CancelSel = 1
+		}
+		o.Tag += "+cancel"
+	}
+	if r.Intn(100) < 42 {
+		drawCancel(&op)
+		if r.Intn(3) == 0 && op.Batch != 1 {
+			// more polls: smaller batches
+			op.Batch = 1 + r.Intn(3)
+		}
+	}
 	h.Ops = append(h.Ops, op)
 	// repeat the same import without faults (idempotence / recovery)
 	rep := op
 	rep.BFile = append([]int{}, op.BFile...)
 	rep.FFile = append([]int{}, op.FFile...)
 	rep.FailBW, rep.FailFW, rep.FailRB = 0, 0, false
+	rep.Cancel, rep.CancelSel, rep.Polls = 0, 0, 0
 	rep.Tag = "repeat"
 	if r.Intn(3) == 0 {
 		rep.Batch = pickBatch(r)
+	}
+	if op.CancelSel != 0 && r.Intn(4) == 0 {
+		// cancelled again, then once more to the end
+		rep2 := rep
+		rep2.BFile = append([]int{}, op.BFile...)
+		rep2.FFile = append([]int{}, op.FFile...)
+		drawCancel(&rep)
+		h.Ops = append(h.Ops, rep)
+		rep = rep2
 	}
 	h.Ops = append(h.Ops, rep)
 	// sometimes a further file continuing the main chain
@@ -832,7 +964,11 @@ func genHistory(seed int64, id int) History {
 		if S2 == 0 {
 			ff[0] = 0
 		}
-		h.Ops = append(h.Ops, importOp(main[S2:E2+1], ff, S2, pickBatch(r), "further"))
+		fop := importOp(main[S2:E2+1], ff, S2, pickBatch(r), "further")
+		if r.Intn(4) == 0 {
+			drawCancel(&fop)
+		}
+		h.Ops = append(h.Ops, fop)
 	}
 	h.Nodes = g.nodes
 	return h
@@ -988,6 +1124,88 @@ func corpus() []History {
 		op := importOp(main[4:10], ff, 4, 2, "filter-wrong")
 		out = append(out, History{Variant: 0, Nodes: g.nodes, InitB: main[:5], InitF: initF(4), Ops: []Op{op}})
 	}
+	// Context cancellation (the poll numbers are fixed: block validator =
+	// one poll per batch, filter validator = one poll per batch, append loop
+	// = one poll per batch + one before it finds the region exhausted).
+	// (a) cancelled on entry, file with a new header that does not link / a
+	// first new header without proof of work / a filter header
+	// contradicting a checkpoint:
+	// both validators skip everything, the append loop must notice before
+	// it writes; then the same file under a live context is rejected
+	for k := 0; k < 3; k++ {
+		g, main := mk(k%2, 13)
+		cpos := 6 // first new header
+		if k == 0 {
+			cpos = 8 // the link to the target tip is checked before validation
+		}
+		n := Node{Parent: main[cpos-1], DT: 9}
+		switch k {
+		case 0:
+			n.PrevUnk = 2
+		case 1:
+			n.BadPow = true
+		}
+		bfile := append([]int{}, main[3:cpos]...)
+		ff := seqTok(3, 12)
+		if k == 2 {
+			bfile = append([]int{}, main[3:13]...)
+			ff[4] = 507
+		} else {
+			a := g.add(n)
+			bfile = append(append(bfile, a), g.chain(a, 12-cpos, k%2)...)
+		}
+		op := importOp(bfile, ff, 3, 4, "cancel-before-validation")
+		op.Cancel = 1
+		live := op
+		live.Cancel = 0
+		live.Tag = "repeat"
+		out = append(out, History{Variant: k % 2, Nodes: g.nodes, InitB: main[:6], InitF: initF(5), Ops: []Op{op, live}})
+	}
+	// (b) valid file 2..13 onto stores 0..4, batch 3: validators 4+4 polls,
+	// append loop polls 9,10,11 before the three batches, 12 before EOF;
+	// cancelled at poll 10 (one batch written), 11, 12 (everything written,
+	// failure reported), 13 (never seen); the repeat completes the import
+	for _, at := range []int{10, 11, 12, 13, 5} {
+		g, main := mk(1, 14)
+		op := importOp(main[2:14], seqTok(2, 13), 2, 3, "cancel-between-batches")
+		op.Cancel = at
+		rep := op
+		rep.Cancel = 0
+		rep.Tag = "repeat"
+		out = append(out, History{Variant: 1, Nodes: g.nodes, InitB: main[:5], InitF: initF(4), Ops: []Op{op, rep}})
+	}
+	// (c) block store 0..9 ahead of filter store 0..5, file 3..20, batch 2:
+	// validators 9+9 polls, divergence catch-up (filter-only) polls 19,20
+	// before its two batches and 21 before EOF, then the common region;
+	// cancelled inside the catch-up, at its last poll, and in the common
+	// region; (d) the same with a filter header contradicting a checkpoint
+	// inside the divergence region, cancelled on entry
+	for _, at := range []int{19, 20, 21, 23, 1} {
+		g, main := mk(1, 21)
+		bfile := append([]int{}, main[3:21]...)
+		ff := seqTok(3, 20)
+		tag := "cancel-in-divergence"
+		if at == 1 {
+			// filter header at the checkpointed height 7, inside the
+			// divergence region 6..9, contradicts the checkpoint
+			ff[7-3] = 507
+			tag = "cancel-before-validation-divergence"
+		}
+		op := importOp(bfile, ff, 3, 2, tag)
+		op.Cancel = at
+		rep := op
+		rep.Cancel = 0
+		rep.Tag = "repeat"
+		out = append(out, History{Variant: 1, Nodes: g.nodes, InitB: main[:10], InitF: initF(5), Ops: []Op{op, rep}})
+	}
+	// (e) a file lying within both stores, cancelled on entry: nothing is
+	// validated, nothing is to be written, Import reports success
+	{
+		g, main := mk(0, 12)
+		op := importOp(main[2:7], seqTok(2, 6), 2, 2, "cancel-nothing-to-write")
+		op.Cancel = 1
+		out = append(out, History{Variant: 0, Nodes: g.nodes, InitB: main[:9], InitF: initF(8), Ops: []Op{op}})
+	}
 	for i := range out {
 		out[i].ID = i
 	}
@@ -1056,8 +1274,8 @@ func caseTerm(h *History, genFilt chainhash.Hash) string {
 			if op.FailRB {
 				rb = "true"
 			}
-			t = fmt.Sprintf("RI %s %s %s %s %d (mkF %d %d %s)", metaTerm(op.BMeta), ints(op.BFile),
-				metaTerm(op.FMeta), ints(op.FFile), op.Batch, op.FailBW, op.FailFW, rb)
+			t = fmt.Sprintf("RI %s %s %s %s %d (mkF %d %d %s %d)", metaTerm(op.BMeta), ints(op.BFile),
+				metaTerm(op.FMeta), ints(op.FFile), op.Batch, op.FailBW, op.FailFW, rb, op.Cancel)
 		} else {
 			t = fmt.Sprintf("RR %d", op.N)
 		}
@@ -1130,7 +1348,12 @@ func signature(h *History) (sig string, nontrivial bool) {
 				sb.WriteString("f")
 				interesting = true
 			}
-			if strings.HasPrefix(op.Tag, "corrupt") || op.Tag == "filter-wrong" || op.Tag == "f09" {
+			if op.Cancel > 0 && op.Cancel <= op.Polls {
+				// a poll of this import reported cancellation
+				sb.WriteString("k")
+				interesting = true
+			}
+			if strings.HasPrefix(op.Tag, "corrupt") || strings.HasPrefix(op.Tag, "filter-wrong") || op.Tag == "f09" {
 				sb.WriteString("c")
 				interesting = true
 			}
@@ -1254,6 +1477,18 @@ func main() {
 				if op.BMeta.Start > 0 {
 					rep.Histogram["start>0"]++
 				}
+				if op.Cancel > 0 {
+					switch {
+					case op.Polls == 0 && op.CancelSel == 0:
+						rep.Histogram["cancel:fixed"]++
+					case op.Cancel > op.Polls:
+						rep.Histogram["cancel:after-last-poll"]++
+					case op.Obs.OK:
+						rep.Histogram["cancel:seen-success"]++
+					default:
+						rep.Histogram["cancel:seen-failure"]++
+					}
+				}
 				rep.Histogram[fmt.Sprintf("batch:%d", op.Batch)]++
 			}
 		}
@@ -1292,7 +1527,7 @@ func main() {
 	rep.Histogram["distinct_signatures"] = len(sigs)
 	rep.Evaluations = len(terms)
 	rep.DistinctNontrivial = len(nontrivial)
-	rep.Rule = "histories = (target stores prefilled through WriteHeaders, optional block-store rollback, import, repeated import, optional further import) on real headerfs stores; signature = parameter variant + per op: start class (genesis/overlap/exact extension/gap), stores-at-different-heights, fault, corruption, result, stores-changed; a history is non-trivial when some import has a non-zero start height, an injected write failure or a corrupted header AND some operation changed the stores; distinct = distinct signatures among those"
+	rep.Rule = "histories = (target stores prefilled through WriteHeaders, optional block-store rollback, import, repeated import, optional further import) on real headerfs stores; signature = parameter variant + per op: start class (genesis/overlap/exact extension/gap), stores-at-different-heights, fault, context-cancelled-at-a-poll-the-import-made, corruption, result, stores-changed; a history is non-trivial when some import has a non-zero start height, an injected write failure, a context cancellation that one of its polls saw or a corrupted header AND some operation changed the stores; distinct = distinct signatures among those"
 	for i := 0; i < len(hs) && i < 3; i++ {
 		rep.Samples = append(rep.Samples, hs[i])
 	}
